@@ -305,6 +305,7 @@ func VerifH_C01_closures() {
 		"var fs = []; for (var i = 0; i < n; i++) { fs.push(function () { return i }) } for (var k = 0; k < fs.length; k++) rec(fs[k]());" +
 		"var mk = function (a) { return function (b) { a = a + b; return a } }; var acc = mk(x); acc(1); rec(acc(2)); rec(mk(0)(5));" +
 		"function outerFn() { var v = 40; function innerFn() { return v } v = 41; return innerFn } rec(outerFn()());" +
+		"rec((function fx() { fx = x; return typeof fx })()); rec((function fy(fy) { return fy })(x)); rec((function fz() { var fz = x; return fz })());" +
 		"(function named(k) { return k <= 0 ? 50 : named(k - 1) + 1 })(n)"
 	v, err := verifSubmit(vm, src, verifRoute())
 	verifCover("reached")
@@ -312,7 +313,7 @@ func VerifH_C01_closures() {
 	for i := 0; i < n; i++ {
 		want = append(want, numV(float64(n)))
 	}
-	want = append(want, numV((x+1)+2), numV(5), numV(41))
+	want = append(want, numV((x+1)+2), numV(5), numV(41), toValue("function"), numV(x), numV(x))
 	verifAssert(err == nil, "the program completes normally")
 	verifAssert(r.same(want), "10.5 declaration binding instantiation (function and var hoisting); closures share the variable, not its value")
 	verifAssert(verifSameJS(v, numV(float64(50+n))), "a named function expression can call itself")
